@@ -23,7 +23,7 @@ Definition show_end (e : session_end) : string :=
 
 
 Definition run_model (c : case) : string :=
-  let '(l, units, a, frames) := c in
-  let '(rs, _, log, e) := session prog l (auth_model a) units frames in
+  let '(l, m, hs, a, frames) := c in
+  let '(rs, _, log, e) := session prog l (auth_model a) (mkunits m hs) frames in
   show_replies rs ++ "|" ++ show_log log ++ "|" ++ show_end e.
 Definition run_both (c : case) : string := run_model c ++ "#" ++ run_spec c.
